@@ -71,28 +71,77 @@ class BuildError(Exception):
 
 # --------------------------------------------------------------------------
 # step 1: translator
-def run_gotab():
-    """Regenerate coq/gen/Tab*.v from the current /repo tree (write-if-changed)."""
+def run_gotab(mod=None):
+    """Regenerate coq/gen/Tab*.v from the current /repo tree (write-if-changed).
+    mod.GOTAB lists the dumper files of go/gotab this property depends on
+    (None = all)."""
     gotab_dir = os.path.join(VERIF, "go", "gotab")
-    if not os.path.isdir(gotab_dir):
-        return {"skipped": True}
-    with Lock("gotab"):
-        rc, out = sh(["go", "build", "-tags", "verif", "-o", os.path.join(BUILD, "gotab"), "."],
+    files = getattr(mod, "GOTAB", None) if mod is not None else None
+    if files is not None and not files:
+        return {"tables": "none needed"}
+    if files is None:
+        files = sorted(f for f in os.listdir(gotab_dir) if f.endswith(".go") and f != "main.go")
+        name = "gotab"
+    else:
+        name = "gotab_" + mod.PID
+    exe = os.path.join(BUILD, name)
+    with Lock(name):
+        rc, out = sh(["go", "build", "-tags", "verif", "-o", exe, "main.go"] + list(files),
                      cwd=gotab_dir, env=GOENV, timeout=600)
         if rc != 0:
-            raise BuildError("gotab build (translator no longer compiles against /repo)", out)
-        rc, out = sh([os.path.join(BUILD, "gotab"), os.path.join(COQ, "gen")], cwd=REPO, timeout=600)
+            raise BuildError("gotab build (translator/hooks no longer compile against /repo)", out)
+        with Lock("gen"):
+            rc, out = sh([exe, os.path.join(COQ, "gen")], cwd=REPO, timeout=600)
         if rc != 0:
             raise BuildError("gotab run", out)
-    return {"log": out.strip().splitlines()[-5:]}
+    return {"log": out.strip().splitlines()[-8:]}
 
 
 # --------------------------------------------------------------------------
 # step 2: Coq
+def write_if_changed(path, text):
+    try:
+        if open(path).read() == text:
+            return False
+    except OSError:
+        pass
+    with open(path, "w") as f:
+        f.write(text)
+    return True
+
+
+COQ_DIRS = ["base", "gen", "model", "spec", "proofs", "props"]
+
+
+def gen_project_files():
+    """_CoqProject lists all .v files under the source directories (generated)."""
+    files = []
+    for d in COQ_DIRS:
+        dd = os.path.join(COQ, d)
+        if os.path.isdir(dd):
+            files += sorted("%s/%s" % (d, f) for f in os.listdir(dd) if f.endswith(".v") and not f.startswith("."))
+    proj = "".join("-Q %s Verif\n" % d for d in COQ_DIRS) + "".join(f + "\n" for f in files)
+    return write_if_changed(os.path.join(COQ, "_CoqProject"), proj)
+
+
+def find_module(name):
+    for d in COQ_DIRS:
+        if os.path.exists(os.path.join(COQ, d, name + ".v")):
+            return "%s/%s" % (d, name)
+    raise BuildError("extract list names unknown module " + name, "")
+
+
+def coq_q_flags():
+    fl = []
+    for d in COQ_DIRS:
+        fl += ["-Q", os.path.join(COQ, d), "Verif"]
+    return fl
+
+
 def coq_makefile():
+    changed = gen_project_files()
     mk = os.path.join(COQ, "Makefile")
-    cp = os.path.join(COQ, "_CoqProject")
-    if not os.path.exists(mk) or os.path.getmtime(mk) < os.path.getmtime(cp):
+    if changed or not os.path.exists(mk):
         rc, out = sh("coq_makefile -f _CoqProject -o Makefile", cwd=COQ)
         if rc != 0:
             raise BuildError("coq_makefile", out)
@@ -152,43 +201,63 @@ def grep_gate():
 
 # --------------------------------------------------------------------------
 # step 3: harness + extracted model
-def build_impl():
-    with Lock("goimpl"):
+def build_impl(mod):
+    """go build of the harness: main.go util.go + mod.GOFILES, -tags verif, against /repo."""
+    name = "impl_" + mod.PID
+    with Lock(name):
         d = os.path.join(VERIF, "go", "impl")
-        rc, out = sh(["go", "build", "-tags", "verif", "-o", os.path.join(BUILD, "impl"), "."],
-                     cwd=d, env=GOENV, timeout=900)
+        rc, out = sh(["go", "build", "-tags", "verif", "-o", os.path.join(BUILD, name), "main.go", "util.go"]
+                     + list(mod.GOFILES), cwd=d, env=GOENV, timeout=900)
         if rc != 0:
             raise BuildError("implementation harness build with -tags verif (hooks or API no longer compile)", out)
+    return os.path.join(BUILD, name)
 
 
-def build_model():
-    """Extract (coqc Extract.v) and compile the OCaml driver when stale."""
+def build_model(mod):
+    """Extract the modules named in coq/extract/<l>.list for l in mod.EXTRACT and
+    compile them with conv.ml, mod.HANDLERS and driver.ml into build/model_<PID>."""
+    name = "model_" + mod.PID
+    exe = os.path.join(BUILD, name)
+    mods, names = [], []
+    for lf in mod.EXTRACT:
+        for line in open(os.path.join(COQ, "extract", lf + ".list")):
+            line = line.split("#")[0].split()
+            if not line:
+                continue
+            if line[0] not in mods:
+                mods.append(line[0])
+            for n in line[1:]:
+                if n not in names:
+                    names.append(n)
+    ext = ("(* GENERATED from coq/extract/*.list.  Only ExtrOcamlBasic: bool, option, list, prod, unit,\n"
+           "   sumbool map to OCaml types; N, Z, positive, nat stay inductive.  No Extract Constant. *)\n"
+           "Require Extraction.\nRequire Import ExtrOcamlBasic.\n"
+           "From Verif Require Import %s.\n"
+           "Extraction \"Model.ml\" %s.\n" % (" ".join(mods), " ".join(names)))
+    gen = os.path.join(BUILD, "extract_" + mod.PID)
+    os.makedirs(gen, exist_ok=True)
     with Lock("coq"):
         coq_makefile()
-        rc, out = sh(["make", "-j%d" % NCPU, "extract/Extract.vo"], cwd=COQ, timeout=3600)
+        rc, out = sh(["make", "-j%d" % NCPU] + [find_module(m) + ".vo" for m in mods], cwd=COQ, timeout=3600)
         if rc != 0:
-            raise BuildError("extraction (model no longer compiles)", out)
-        gen = os.path.join(VERIF, "ocaml", "gen")
-        os.makedirs(gen, exist_ok=True)
-        exe = os.path.join(BUILD, "model")
-        srcs = [os.path.join(COQ, "extract", "Extract.vo")] + [
-            os.path.join(VERIF, "ocaml", f) for f in os.listdir(os.path.join(VERIF, "ocaml")) if f.endswith(".ml")]
-        if os.path.exists(exe) and all(os.path.getmtime(s) <= os.path.getmtime(exe) for s in srcs):
-            return
-        for f in ("Model.ml", "Model.mli"):
-            src = os.path.join(COQ, f)
-            # make runs coqc with cwd = coq/, so the extracted files land there
-            if os.path.exists(src):
-                os.replace(src, os.path.join(gen, f))
-        if not os.path.exists(os.path.join(gen, "Model.ml")):
-            raise BuildError("extraction produced no Model.ml", out)
-        mls = ["gen/Model.mli", "gen/Model.ml", "conv.ml"] + sorted(
-            f for f in os.listdir(os.path.join(VERIF, "ocaml"))
-            if f.endswith(".ml") and f not in ("conv.ml", "driver.ml")) + ["driver.ml"]
-        rc, out = sh(["ocamlfind", "ocamlopt", "-O3", "-w", "-a", "-I", "gen"] + mls + ["-o", exe],
-                     cwd=os.path.join(VERIF, "ocaml"), timeout=1800)
+            raise BuildError("model/spec no longer compiles", out)
+    with Lock(name):
+        write_if_changed(os.path.join(gen, "Extract.v"), ext)
+        srcs = [os.path.join(COQ, find_module(m) + ".vo") for m in mods] + \
+               [os.path.join(VERIF, "ocaml", f) for f in ["conv.ml", "driver.ml"] + list(mod.HANDLERS)] + \
+               [os.path.join(gen, "Extract.v")]
+        if os.path.exists(exe) and all(os.path.getmtime(x) <= os.path.getmtime(exe) for x in srcs):
+            return exe
+        rc, out = sh(["coqc"] + coq_q_flags() + ["Extract.v"], cwd=gen, timeout=1800)
+        if rc != 0 or not os.path.exists(os.path.join(gen, "Model.ml")):
+            raise BuildError("extraction failed", out)
+        for f in ["conv.ml", "driver.ml"] + list(mod.HANDLERS):
+            sh(["cp", os.path.join(VERIF, "ocaml", f), gen])
+        mls = ["Model.mli", "Model.ml", "conv.ml"] + list(mod.HANDLERS) + ["driver.ml"]
+        rc, out = sh(["ocamlfind", "ocamlopt", "-O3", "-w", "-a"] + mls + ["-o", exe], cwd=gen, timeout=1800)
         if rc != 0:
             raise BuildError("ocaml driver build", out)
+    return exe
 
 
 # --------------------------------------------------------------------------
@@ -232,14 +301,6 @@ def run_lines(exe, lines, shards=1, timeout=3600, mem_gb=8):
             else:
                 merged[i + j * shards] = "CRASH(rc=%s %s)" % (rc, e.strip()[-200:])
     return merged
-
-
-def impl_exe():
-    return os.path.join(BUILD, "impl")
-
-
-def model_exe():
-    return os.path.join(BUILD, "model")
 
 
 # --------------------------------------------------------------------------
@@ -292,13 +353,13 @@ class Report:
 
 
 def load_known_findings():
-    p = os.path.join(VERIF, "known_findings.jsonl")
+    p = os.path.join(VERIF, "known_findings.txt")
     res = []
     if os.path.exists(p):
         for line in open(p):
             line = line.strip()
             if line and not line.startswith("#"):
-                res.append(json.loads(line))
+                res.append(line)
     return res
 
 
@@ -355,7 +416,7 @@ def standard_check(mod, tier, seed):
 
     # 1. translator
     try:
-        rep.cov["translator"] = run_gotab()
+        rep.cov["translator"] = run_gotab(mod)
     except BuildError as e:
         broken.append(("translator", e.what + ": " + first_error(e.log)))
 
@@ -381,13 +442,14 @@ def standard_check(mod, tier, seed):
 
     # 3. harness + model
     impl_ok = model_ok = True
+    impl_exe = model_exe = None
     try:
-        build_impl()
+        impl_exe = build_impl(mod)
     except BuildError as e:
         impl_ok = False
         broken.append(("harness", e.what + ": " + first_error(e.log)))
     try:
-        build_model()
+        model_exe = build_model(mod)
     except BuildError as e:
         model_ok = False
         broken.append(("model", e.what + ": " + first_error(e.log)))
@@ -400,8 +462,8 @@ def standard_check(mod, tier, seed):
     ncorpus = len(lines)
     lines += mod.cases(tier, rng)
     shards = NCPU if tier == "thorough" or len(lines) > 2000 else min(NCPU, 8)
-    impl_out = run_lines(impl_exe(), lines, shards) if impl_ok else [None] * len(lines)
-    model_out = run_lines(model_exe(), lines, shards) if model_ok else [None] * len(lines)
+    impl_out = run_lines(impl_exe, lines, shards) if impl_ok else [None] * len(lines)
+    model_out = run_lines(model_exe, lines, shards) if model_ok else [None] * len(lines)
     compare = getattr(mod, "compare", lambda a, b: a == b)
     mism = [i for i in range(len(lines)) if impl_ok and model_ok and not compare(impl_out[i], model_out[i])]
 
@@ -410,7 +472,7 @@ def standard_check(mod, tier, seed):
     if impl_ok and model_ok and hasattr(mod, "oracle_lines"):
         ol = mod.oracle_lines(lines, impl_out)
         idx = [i for i, l in enumerate(ol) if l is not None]
-        oo = run_lines(model_exe(), [ol[i] for i in idx], shards)
+        oo = run_lines(model_exe, [ol[i] for i in idx], shards)
         for i, o in zip(idx, oo):
             why = mod.oracle_verdict(lines[i], impl_out[i], o)
             if why:
@@ -444,7 +506,7 @@ def standard_check(mod, tier, seed):
         if len(reported) < 5:
             rep.violation({"kind": "specification oracle rejects the implementation's output",
                            "case": lines[i], "impl_output": impl_out[i], "oracle_output": o, "why": why,
-                           "replay": "echo '%s' | /verif/build/impl" % lines[i]})
+                           "replay": "echo '%s' | %s" % (lines[i], impl_exe)})
         reported.add(i)
     unexplained = [i for i in mism if i not in reported and not known(lines[i])]
     for i in mism:
@@ -464,7 +526,7 @@ def standard_check(mod, tier, seed):
         rep.violation({"kind": "correspondence model-vs-implementation no longer checks",
                        "correspondence": "%s differential run (%d of %d cases differ)" % (mod.PID, len(unexplained), len(lines)),
                        "case": lines_i, "impl_output": impl_out[i], "model_output": model_out[i],
-                       "replay": "echo '%s' | /verif/build/impl" % lines_i}, found_input=found)
+                       "replay": "echo '%s' | %s" % (lines_i, impl_exe)}, found_input=found)
     if broken and not rep.violations:
         rep.violation({"kind": "proof obligation / build no longer checks", "broken": broken,
                        "note": "no concrete failing input found in %d cases (model-impl mismatches: %d, oracle rejections: %d)"
